@@ -1,6 +1,10 @@
 // Harness for C01: interprets interval / parameter scripts against
 // Bpp/Numeric/Constraints.h, Parameter.{h,cpp} and AutoParameter.cpp.
-// Registers: interval constraints i0..i7, parameters p0..p3.
+// Registers: interval constraints i0..i7 (shared pointers to constraint objects), parameters p0..p3.
+// By-value cases attach a *clone* of a register's object to a parameter (p.new, p.new3, p.setc);
+// `shared` cases (BppModel/ParamShared.lean) also attach the register's own object (p.news, p.setcs),
+// take the handle back (p.getc, p.rmcs), duplicate a pointer (ic.alias) and change attached objects in
+// place through these handles (ic.setlo, ic.sethi, ic.interas, ic.parse).
 // Doubles travel as 16 hex digits; an interval prints as `lo hi inclLo inclHi precision`;
 // a parameter as `value precision auto (interval | none)`.
 #include "common.h"
@@ -9,6 +13,7 @@
 #include <Bpp/App/ApplicationTools.h>
 #include <Bpp/Io/OutputStream.h>
 #include <memory>
+#include <sstream>
 using namespace bpp; using namespace verif;
 
 typedef std::shared_ptr<IntervalConstraint> IC;
@@ -26,6 +31,10 @@ extern "C" void bpp_verif_param_audit(const bpp::Parameter* p, const char* site)
   if (p->hasConstraint() && !p->getConstraint()->isCorrect(p->getValue()))
     if (monitorOffence.empty()) monitorOffence = site;
 }
+
+// message handler of the auto-correcting parameter: a capturing stream whose lines are counted
+static std::ostringstream capBuf;
+static std::shared_ptr<OutputStream> capStream(new StlOutputStreamWrapper(&capBuf));
 
 static std::string b(bool x) { return x ? "1" : "0"; }
 static double D(const std::string& s) { return hexToDouble(s); }
@@ -45,15 +54,23 @@ static std::string showP(const std::unique_ptr<Parameter>& p) {
   return s + (ic ? showIC(*ic) : std::string("other"));
 }
 
-// the constraint argument of a parameter op: `-` (none) or an interval register; the parameter
-// receives its own copy of the interval object, so that in-place updates of a register
-// (ic.interas / ic.setlo / ic.sethi / ic.parse) never reach an attached constraint
-// (that route is outside the property and outside the model)
+// the constraint argument of a by-value parameter op (p.new, p.new3, p.setc): `-` (none) or an interval
+// register; the parameter receives its own copy of the interval object, so that in-place updates of a
+// register (ic.interas / ic.setlo / ic.sethi / ic.parse) do not reach the attached constraint.
+// The `shared` ops (p.news, p.setcs: sarg below) attach the register's object itself.
 static std::shared_ptr<ConstraintInterface> carg(const std::string& s) {
   if (s == "-") return nullptr;
   const IC& c = ics.at(toU(s));
   if (!c) throw std::runtime_error("absent interval");
   return std::shared_ptr<ConstraintInterface>(c->clone());
+}
+
+// the pointer argument of a `shared` parameter op: null or the register's own object
+static std::shared_ptr<ConstraintInterface> sarg(const std::string& s) {
+  if (s == "-") return nullptr;
+  const IC& c = ics.at(toU(s));
+  if (!c) throw std::runtime_error("absent interval");
+  return c;
 }
 
 static std::string withState(const std::string& outcome, size_t k) {
@@ -80,6 +97,7 @@ static std::string op(const Toks& t) {
   }
   if (o == "ic.copy") { size_t i = toU(t[1]), k = toU(t[2]); if (!ics.at(i)) return "absent"; IC c(ics[i]->clone()); ics.at(k) = c; return showIC(*ics[k]); }
   if (o == "ic.get") { return showICp(ics.at(toU(t[1]))); }
+  if (o == "ic.alias") { size_t i = toU(t[1]), k = toU(t[2]); if (!ics.at(i)) return "absent"; ics.at(k) = ics[i]; return showIC(*ics[k]); }
   if (o.compare(0, 3, "ic.") == 0 && o != "ic.parsenew") {
     size_t k = toU(t[1]);
     if (!ics.at(k)) return "absent";
@@ -123,10 +141,17 @@ static std::string op(const Toks& t) {
     return "ok ; " + showIC(*ics[k]);
   }
   // ---------------------------------------------------------------- parameters
-  if (o == "p.new" || o == "p.new3") {
+  if (o == "p.def") {
+    // the default constructors
+    size_t k = toU(t[1]); std::unique_ptr<Parameter> p;
+    if (B(t[2])) p.reset(new AutoParameter()); else p.reset(new Parameter());
+    ps.at(k) = std::move(p); return withState("ok", k);
+  }
+  if (o == "p.new" || o == "p.new3" || o == "p.news") {
     // p.new k auto value constraint precision   |   p.new3 k auto value constraint (default precision)
+    // p.news: as p.new, but the register's own object is attached (not a clone)
     size_t k = toU(t[1]); bool au = B(t[2]); double v = D(t[3]);
-    std::shared_ptr<ConstraintInterface> c = carg(t[4]);
+    std::shared_ptr<ConstraintInterface> c = o == "p.news" ? sarg(t[4]) : carg(t[4]);
     try {
       std::unique_ptr<Parameter> p;
       if (au) p.reset(new AutoParameter("x", v, c));
@@ -145,6 +170,14 @@ static std::string op(const Toks& t) {
     return withState("ok", k);
   }
   if (o == "p.get") { size_t k = toU(t[1]); return withState("ok", k); }
+  if (o == "p.msgs") {
+    // number of complete lines the capturing message handler received since the last call
+    std::string txt = capBuf.str(); capBuf.str("");
+    size_t n = 0; for (char ch : txt) if (ch == '\n') n++;
+    // every line is a report "Constraint match at parameter <name>, badValue = <v> <description>"
+    size_t m = 0, pos = 0; while ((pos = txt.find("Constraint match at parameter ", pos)) != std::string::npos) { m++; pos++; }
+    return std::to_string(n) + " " + std::to_string(m);
+  }
   if (o.compare(0, 2, "p.") == 0) {
     size_t k = toU(t[1]);
     if (!ps.at(k)) return "absent";
@@ -153,6 +186,38 @@ static std::string op(const Toks& t) {
       if (o == "p.set") p.setValue(D(t[2]));
       else if (o == "p.prec") p.setPrecision(D(t[2]));
       else if (o == "p.setc") p.setConstraint(carg(t[2]));
+      else if (o == "p.con") {
+        // constraint(): const and non-const overloads, NullPointerException when there is none
+        try {
+          const Parameter& cp = p;
+          const IntervalConstraint& a = dynamic_cast<const IntervalConstraint&>(cp.constraint());
+          IntervalConstraint& a2 = dynamic_cast<IntervalConstraint&>(p.constraint());
+          return &a == &a2 ? showIC(a) : std::string("different-objects");
+        } catch (NullPointerException&) { return "exc:bpp"; }
+      }
+      else if (o == "p.setcs") p.setConstraint(sarg(t[2]));
+      else if (o == "p.getc") {
+        // the handle a non-const parameter hands out (no const_cast): Parameter.h:218
+        IC h = std::dynamic_pointer_cast<IntervalConstraint>(p.getConstraint());
+        ics.at(toU(t[2])) = h;
+        return h ? showIC(*h) : std::string("none");
+      }
+      else if (o == "p.rmcs") {
+        auto c = p.removeConstraint();
+        auto ic = std::dynamic_pointer_cast<IntervalConstraint>(c);
+        ics.at(toU(t[2])) = ic;
+        return withState("ok", k) + " ; " + (ic ? showIC(*ic) : std::string("none"));
+      }
+      else if (o == "p.mh") {
+        // message handler of an AutoParameter: 0 = none (null pointer), 1 = capturing stream, 2 = sink
+        AutoParameter* a = dynamic_cast<AutoParameter*>(&p);
+        if (!a) return "notauto";
+        const std::string& m = t[2];
+        if (m == "0") a->setMessageHandler(nullptr);
+        else if (m == "1") a->setMessageHandler(capStream);
+        else a->setMessageHandler(std::make_shared<NullOutputStream>());
+        return "ok";
+      }
       else if (o == "p.rmc") {
         auto c = p.removeConstraint();
         auto ic = std::dynamic_pointer_cast<IntervalConstraint>(c);
@@ -170,7 +235,7 @@ int main() {
   // keep the reporting code running, but into a sink
   ApplicationTools::message = std::make_shared<NullOutputStream>();
   auto reset = [&](const Toks&) {
-    ics.clear(); ics.resize(NI); ps.clear(); ps.resize(NP); monitorOffence.clear();
+    ics.clear(); ics.resize(NI); ps.clear(); ps.resize(NP); monitorOffence.clear(); capBuf.str("");
   };
   reset(Toks());
   return runLoop(reset, [&](const Toks& t) { return op(t); });
